@@ -16,10 +16,22 @@ All theorems are about the model functions the driver `drv_c16` executes (`scatt
 every DOF table, every local matrix and every number of cells (no size bounds).
 `Pattern.apply p data x r = (A x)_r` is the dense meaning of a CSR data array.
 
-What is *not* proved here (observed by the correspondence run with the exact oracle only): that the local
-matrices produced by the cell loop are the exact integrals (this needs the cubature rules of C14 and the basis
-polynomials of C15), the voxel assemblers; blocked value types and the Burgers operator are covered through the
-per-cell parameter logic (`burgers_*` theorems) and the exact route comparison of the correspondence run.
+What is proved about the local integrals (see the sections at the end): on affine cells (identity, Laplace, Du:Dv blocks,
+force; Lagrange-1/2) and on multilinear quadrilaterals (identity, force: `det J` polynomial) the local entries as coded are
+the exact integrals for a rule that is exact on the integrand's monomials; facet entries of the 3-D trace assembler on
+facets in coordinate planes likewise. The hypotheses (monomials of the integrand inside the rule's exactness set, sign of
+the determinant in the cubature points) are decidable and evaluated by the driver on every `flocal` case.
+
+What is *not* proved (observed by the correspondence run with the exact oracle only):
+* the identification `polyInt = Lebesgue integral` (the integral of a polynomial is *defined* by C14's reference monomial
+  integrals and the change of variables) and `det J ≥ 0` on the whole cell (only in the cubature points);
+* Laplace-type operators on non-affine quadrilaterals/hexahedra (rational integrand: no rule is exact), hexahedra and
+  tetrahedra in general (the local model covers `d ≤ 2`; 3-D only through the facet theorem), RT/CR/P0 spaces;
+* the Burgers convection / streamline-diffusion terms as integrals (only the per-cell parameter logic and the route
+  equality are proved/observed), stress-divergence / strain-rate local entries (entry-by-entry comparison with the
+  scalar operators in the `operators` stream), trace integrals on facets in skew planes (`jac_det` is a square root);
+* the voxel assemblers (double only: rounding-bound comparison, supporting evidence), Gauss-type rules (rounded tables;
+  C14's exactness is up to 2^-40, not exact).
 `C16.FullStatement` records the full claim.
 -/
 open FeatModel.Asm FeatModel.Adj FeatModel.Burgers FeatModel.LocalFE
@@ -450,3 +462,47 @@ code 2 differ -/
 example :
     FeatModel.TraceOrient.facetPoint FeatModel.FE.Kind.H 1 1 [1/3, 1/5] = some [-1/5, 1/3, 1] ∧
     FeatModel.TraceOrient.facetPoint FeatModel.FE.Kind.H 1 2 [1/3, 1/5] = some [1/5, -1/3, 1] := by decide +kernel
+
+/-! ### beyond affine cells, blocked operators, facets -/
+
+/-- **local_integral_exact_multilinear** (mass / force on multilinear quadrilaterals; `jac_det = |det J(x_q)|` handling): if the
+Jacobian determinant polynomial `D` is non-negative in the cubature points (decidable, evaluated by the driver on every
+`flocal` case) and the rule is exact on the monomials of `F·D`, the local entry as coded,
+`Σ_q F(x_q)·|D(x_q)|·w_q`, is the exact integral `∫_ref F·D` (= `∫_K` of the physical integrand by the change of variables
+with the *oriented* Jacobian). For a determinant that is non-positive in the points the same holds with `-D`
+(`C16.local_integral_exact_negative`): the `abs` makes a negatively oriented cell integrate with `|det J|`. -/
+theorem C16.local_integral_exact_multilinear (r : Rule) (simplex : Bool) (d : Nat) (ms : List FeatModel.Poly.Mono)
+    (D F : FeatModel.Poly.Poly) (hdet : r.detNonneg D = true) (hex : r.exactOn simplex d ms = true)
+    (hF : monosIn (FeatModel.Poly.mul F D) ms = true) :
+    localEntryVar r D F = cellInt simplex d 1 (FeatModel.Poly.mul F D) := by
+  rw [C16L.localEntryVar_nonneg r D F hdet]
+  exact C16L.local_exact r simplex d ms 1 _ hex hF
+
+theorem C16.local_integral_exact_negative (r : Rule) (simplex : Bool) (d : Nat) (ms : List FeatModel.Poly.Mono)
+    (D F : FeatModel.Poly.Poly) (hdet : r.detNonpos D = true) (hex : r.exactOn simplex d ms = true)
+    (hF : monosIn (FeatModel.Poly.mul F (FeatModel.Poly.smul (-1) D)) ms = true) :
+    localEntryVar r D F = cellInt simplex d 1 (FeatModel.Poly.mul F (FeatModel.Poly.smul (-1) D)) := by
+  rw [C16L.localEntryVar_nonpos r D F hdet]
+  exact C16L.local_exact r simplex d ms 1 _ hex hF
+
+/-- **trace_facet_integral_exact**: for every local face, every stored vertex order of the facet and its orientation
+code, the facet local entry as coded by the trace assembler (cell-side integrand `P` evaluated in
+`FaceRefTrafo(CongruencyTrafo(s_q))`, weight `|D_f(s_q)|·w_q`) is the exact integral over the facet's reference cell of
+`(P ∘ parametrisation of the stored facet) · D_f` — i.e. the exact polygon integral for a planar facet in a coordinate
+plane, whose `jac_det` is the polynomial `|D_f|` (a facet in a skew plane has `jac_det = ‖∂_1 × ∂_2‖`, a square root:
+not covered). Combines `trace_orientation_consistent` with `local_integral_exact` on the facet reference cell. -/
+theorem C16.trace_facet_integral_exact (r : Rule) (k : FeatModel.FE.Kind) (l : Nat) (π : List Nat) (c : Nat)
+    (Df P : FeatModel.Poly.Poly) (hl : l < FeatModel.FE.numFaces k 3 2) (hπ : π ∈ FeatModel.TraceOrient.syms k)
+    (hc : FeatModel.TraceOrient.orientCode k (FeatModel.FE.storedRow k 3 2 l π) (FeatModel.TraceOrient.canonFace k l) = some c)
+    (hdet : r.detNonneg Df = true) (simplex : Bool) (ms : List FeatModel.Poly.Mono)
+    (hex : r.exactOn simplex 2 ms = true)
+    (hF : monosIn (FeatModel.Poly.mul (FeatModel.Poly.substL
+      (FeatModel.TraceOrient.storedMap k (FeatModel.FE.storedRow k 3 2 l π)) P) Df) ms = true) :
+    facetEntry r k l c Df P =
+      some (cellInt simplex 2 1 (FeatModel.Poly.mul (FeatModel.Poly.substL
+        (FeatModel.TraceOrient.storedMap k (FeatModel.FE.storedRow k 3 2 l π)) P) Df)) := by
+  have hcons : FeatModel.TraceOrient.consistentAll k = true := by
+    cases k
+    · exact C16.trace_orientation_consistent.2
+    · exact C16.trace_orientation_consistent.1
+  exact C16L.facetEntry_exact r k l π c Df P hl hπ hcons hc hdet simplex ms hex hF
